@@ -1,7 +1,7 @@
 (* C12 proofs, part E: the ThrottleInternal hierarchy (root + slaves): invariant, exact accounting of
    m_unused_quota through receive_quota, global conservation. *)
 From Coq Require Import List NArith Bool Lia PeanoNat.
-From LTV.C12 Require Import ParamsGen.
+From LTV.C12 Require Import ParamsGen PolicyGen.
 From LTV.C12 Require Import Model ProofsA ProofsB ProofsC.
 Import ListNotations.
 Local Open Scope N_scope.
